@@ -215,6 +215,10 @@ func plans(id, tier string) (Plan, bool) {
 			}
 			jobs = append(jobs, Job{Pkg: pkgBackend, Harness: "c19_pool", Instr: "backend", Params: fmt.Sprintf("files=%d;tasks=%d;headers=%s;policy=preemption;budget=%d", cf.files, cf.tasks, h, pick(2, 3)), Shards: pick(2, 8)})
 		}
+		// unreadable files first / everywhere (error channel and token handling)
+		for _, v := range []string{"files=2;tasks=1;rot=1", "files=3;tasks=2;rot=1", "files=3;tasks=1;missing=all", "files=3;tasks=2;missing=most", "files=4;tasks=3;missing=all"} {
+			jobs = append(jobs, Job{Pkg: pkgBackend, Harness: "c19_pool", Instr: "backend", Params: v + fmt.Sprintf(";headers=yes;policy=preemption;budget=%d", pick(1, 2)), Shards: pick(2, 8)})
+		}
 		if th {
 			// every interleaving at all (no preemption bound) for the smallest configurations
 			jobs = append(jobs, Job{Pkg: pkgBackend, Harness: "c19_pool", Instr: "backend", Params: "files=1;tasks=1;headers=no;policy=preemption;budget=1000000", Shards: 1})
